@@ -65,4 +65,32 @@ Clauses_eq3(ev) ==
            C16_equality_is_content_equality |->
               Ok(ev) /\ o.ab = EqContent(a, b) /\ o.bc = EqContent(b, c) /\ o.ac = EqContent(a, c),
            C16_reads_leave_content_unchanged |-> HeapUnchanged(ev)]
+\* ---------------------------------------------------------------- align_to_dataframe
+\* Table.align_to_dataframe(frame, axis): a filter to the IDs shared with the frame's index, followed by
+\* the removal of vectors left all-zero; returns the new table and the frame re-indexed by the table's
+\* IDs.  The clauses state what C08 says of any filter by an ID collection (only selected IDs, original
+\* relative order, vectors and metadata intact) and leave the library free to drop all-zero vectors.
+IsSubSeqOf(s, t) == s = SelectSeq(t, LAMBDA x : x \in SeqSet(s))
+Clauses_align_df(ev) ==
+  LET pre == ev.pre[ev.recv]
+      ax  == ev.args.axis
+      common == SeqSet(ev.args.index) \cap SeqSet(Ids(pre, ax))
+      flt == FilterIds(pre, common, ax, FALSE)
+  IN IF Failed(ev)
+     THEN IF common = {} \/ IsEmptyTable(pre)
+          THEN [C07_inputs_unchanged |-> HeapUnchanged(ev)]
+          ELSE [C08_align_df_succeeds |-> FALSE]
+     ELSE LET post == ev.post[ev.res] IN
+       [C08_align_df_only_shared_ids_in_order |->
+            /\ IsSubSeqOf(Ids(post, ax), Ids(flt, ax))
+            /\ IsSubSeqOf(Ids(post, Other(ax)), Ids(pre, Other(ax))),
+        C08_align_df_dropped_vectors_were_zero |->
+            /\ \A id \in SeqSet(Ids(flt, ax)) \ SeqSet(Ids(post, ax)) : VecZero(VecOf(flt, ax, id))
+            /\ \A id \in SeqSet(Ids(flt, Other(ax))) \ SeqSet(Ids(post, Other(ax))) :
+                  VecZero(VecOf(flt, Other(ax), id)),
+        C08_align_df_values_and_metadata_by_id |->
+            ValuesById(pre, post) /\ MdById(pre, post, "observation") /\ MdById(pre, post, "sample"),
+        C08_type_kept |-> post.type = pre.type,
+        C05_align_df_frame_follows_table |-> ev.obs.frame_index = Ids(post, ax)]
+
 =============================================================================
